@@ -16,7 +16,8 @@ Srcs == UNION {[1..n -> Vals] : n \in 0..MaxSrc}
 Ops == [op : {"pushBack"}, v : Vals]
        \cup [op : {"popBack", "clear", "selfAssign", "copy"}]
        \cup [op : {"resize"}, n : 0..MaxLen]
-       \cup [op : {"swap", "assign"}, src : Srcs]
+       \cup [op : {"assign"}, src : Srcs]
+       \cup [op : {"swap"}, src : Srcs, wide : BOOLEAN]        \* wide: the partner of the swap has a larger block size
 
 Init == d = NewDeq /\ prev = NewDeq /\ res = 0 /\ other = <<>> /\ tags = {} /\ hist = <<>> /\ fin = FALSE
 
